@@ -53,12 +53,17 @@ Definition comp_write (lay : list nat) (m : mem) (vs : list Z) (rs : list reg) :
   fold_left apply_call (layer_calls lay vs rs) m.
 
 (* ---- operation sequences ---- *)
-Inductive op := Read (rs : list reg) | Write (vs : list Z) (rs : list reg).
+Inductive op :=
+| Read (rs : list reg) | Write (vs : list Z) (rs : list reg)      (* read_batch / write_batch *)
+| Read1 (r : reg) | Write1 (v : Z) (r : reg)                      (* Composite_Hardware.read / write *)
+| Ext (v : Z) (r : reg).                                          (* the owning layer changes the register itself *)
 
 Definition comp_step (lay : list nat) (m : mem) (o : op) : mem * list Z * list (nat * list (reg * Z)) :=
   match o with
   | Read rs => (m, comp_read lay m rs, [])
   | Write vs rs => (comp_write lay m vs rs, [], layer_calls lay vs rs)
+  | Read1 r => (m, [mget m r], [])
+  | Write1 v r | Ext v r => (write1 m (v, r), [], [])
   end.
 
 (* specification: every register on its own layer, one at a time *)
@@ -66,6 +71,8 @@ Definition spec_step (m : mem) (o : op) : mem * list Z :=
   match o with
   | Read rs => (m, map (mget m) rs)
   | Write vs rs => (fold_left write1 (combine vs rs) m, [])
+  | Read1 r => (m, [mget m r])
+  | Write1 v r | Ext v r => (write1 m (v, r), [])
   end.
 
 Fixpoint comp_run (lay : list nat) (m : mem) (os : list op)
